@@ -22,6 +22,12 @@ func genClosures(r *rand.Rand, id string, tier string) string {
 	var recv V
 	if r.Intn(3) == 0 {
 		recv = V{T: 'C', Form: "n", Kw: []string{"k", "", "cn"}[r.Intn(3)], Op: []string{"c1", "c3", "c0", "-"}[r.Intn(4)], Xs: []V{{T: 'i', I: int64(r.Intn(9))}}}
+		if r.Intn(3) == 0 {
+			recv.Cfg.Opt |= fParen // a presentation closure's result is returned as it is, options or not
+		}
+		if r.Intn(4) == 0 {
+			recv.Cfg.Opt |= fNoPad
+		}
 	} else {
 		c := Cfg{Kind: kinds(r)}
 		if r.Intn(3) == 0 {
